@@ -170,9 +170,13 @@ def max2 (a b : α) : α := if a < b then b else a
 
 end numeric
 
-/-- smooth maximum `logsumexp(k·[a,b]) / k` used when `k > 0` -/
-def smoothMax {α : Type} [Add α] [Mul α] [Div α] [Trans α] (k : α) (a b : α) : α :=
-  Trans.log (Trans.exp (a * k) + Trans.exp (b * k)) / k
+/-- smooth maximum `torch.logsumexp(k·[a,b]) / k` used when `k > 0`. `torch.logsumexp` subtracts the
+larger argument before exponentiating (so it cannot overflow); the model does the same:
+`m + log(exp(ka − m) + exp(kb − m))` with `m = max(ka, kb)`, divided by `k`. -/
+def smoothMax {α : Type} [Add α] [Sub α] [Mul α] [Div α] [Trans α] [LT α] [DecidableLT α]
+    (k : α) (a b : α) : α :=
+  let m := if a * k < b * k then b * k else a * k
+  (m + Trans.log (Trans.exp (a * k - m) + Trans.exp (b * k - m))) / k
 
 /-! ## which parameterisation a model carries (device/dtype state machine) -/
 
